@@ -1022,6 +1022,17 @@ pub async fn process_multiple_changes(
                     } else {
                         debug!(%actor_id, %version, "still have {gaps_count} gaps in partially buffered seqs: {:?}", seqs.gaps(&full_seqs_range).collect::<Vec<_>>());
                     }
+                } else {
+                    // these versions are now fully known (applied or cleared), any
+                    // partial record we kept for them is obsolete
+                    let stale: Vec<CrsqlDbVersion> = booked_write
+                        .partials
+                        .range(versions)
+                        .map(|(v, _)| *v)
+                        .collect();
+                    for v in stale {
+                        booked_write.partials.remove(&v);
+                    }
                 }
             }
         }
